@@ -163,6 +163,7 @@ type GenOpts struct {
 	MaxCols      int
 	MaxTables    int
 	WideTables   bool
+	WideChance   int // 1/n of the tables are wide (0: 25)
 	Prof         genProfile
 	IgnorableGap int // 1/n chance of ignorable events in each gap (0 = never)
 	CaseMix      bool
@@ -278,14 +279,33 @@ func genTable(s *Stream, idx int, o *GenOpts) *TableDef {
 		}
 	}
 	ncols := 1 + s.N(o.MaxCols)
-	if o.WideTables && s.Chance(1, 25) {
+	wc := 25
+	if o.WideChance > 0 {
+		wc = o.WideChance
+	}
+	if o.WideTables && s.Chance(1, wc) {
 		ncols = 250 + s.N(351)
+		if s.Chance(1, 3) {
+			ncols = 66 + s.N(80)
+		}
 	}
 	prof := o.Prof
-	if ncols > 100 {
+	tailRef := -1
+	if ncols > 65 {
 		prof.Kinds = []colKind{kTiny, kShort, kLong, kYear, kDate, kVarchar, kEnum}
+		if s.Chance(1, 2) {
+			// numbers and dates in front, the by-reference columns all behind the
+			// 64th column
+			tailRef = 64 + s.N(ncols-65)
+		}
 	}
 	for i := 0; i < ncols; i++ {
+		if tailRef >= 0 {
+			prof.Kinds = []colKind{kTiny, kShort, kLong, kYear, kDate, kEnum}
+			if i >= tailRef {
+				prof.Kinds = []colKind{kVarchar, kVarchar, kLong}
+			}
+		}
 		t.Cols = append(t.Cols, genColDef(s, i, &prof))
 	}
 	if o.Prof.AllowJSON && s.Chance(1, 4) {
@@ -1185,7 +1205,13 @@ func (b *builder) singleRowsEvent(ts uint32, t *TableDef) []ExpEvent {
 	if cfg.RowsV2 {
 		typ += evWriteRowsV2 - evWriteRowsV1
 	}
-	rb := rowsBodyHeader(cfg.Format, cfg.RowsV2, t.ID, 1, nil, len(t.Cols), bitmaps...)
+	rflags := uint16(1)
+	if b.bulk == 0 && s.Chance(1, 6) {
+		// an autocommitted change is delivered at its rows event whatever that event's
+		// flags say (STMT_END_F missing, session bits, bits nobody has defined yet)
+		rflags = uint16(s.N(1 << 16))
+	}
+	rb := rowsBodyHeader(cfg.Format, cfg.RowsV2, t.ID, rflags, nil, len(t.Cols), bitmaps...)
 	for r := 0; r < nrows; r++ {
 		if before != nil {
 			enc, exp := b.rowImage(t, before)
@@ -1847,7 +1873,17 @@ func (b *builder) addPoisonUnit() {
 	orig := h.Tables[s.N(len(h.Tables))]
 	t := &TableDef{ID: orig.ID, DB: orig.DB, Name: orig.Name, Flags: orig.Flags}
 	t.Cols = append(t.Cols, orig.Cols...)
-	if len(t.Cols) > 1 && s.Chance(1, 2) {
+	desc := "tx-with-column-count-change"
+	if s.Chance(1, 3) {
+		// same shape, but one column is announced with a type code the parser has
+		// no decoder for (20 = typed array, 242 = vector): the table map is
+		// well formed and the rows would still parse under the previous map
+		i := s.N(len(t.Cols))
+		c := t.Cols[i]
+		c.TypeCode = []byte{20, 242, 243, 244}[s.N(4)]
+		t.Cols[i] = c
+		desc = "tx-with-unknown-column-type"
+	} else if len(t.Cols) > 1 && s.Chance(1, 2) {
 		t.Cols = t.Cols[:len(t.Cols)-1-s.N(minInt(3, len(t.Cols)-1))]
 	} else {
 		n := 1 + s.N(3)
@@ -1872,7 +1908,7 @@ func (b *builder) addPoisonUnit() {
 	u.Tx = &ExpTx{Unit: b.unit, Next: b.posOf(commit), Timestamp: int64(commit.Timestamp), Events: exps, Commit: commit}
 	u.End = b.off
 	u.Events = b.curFile().Events[startIdx:]
-	u.Desc = "tx-with-column-count-change"
+	u.Desc = desc
 }
 
 // ---------------------------------------------------------------------------
